@@ -1,7 +1,7 @@
 (* C04: kernel-checked witnesses (vm_compute on the model and the oracle). *)
 From Coq Require Import NArith ZArith List Bool.
 From F8 Require Import Codec.Bytes Codec.Meta Codec.Extract Codec.Decode Codec.Example
-                       C04.Spec_C04 C04.Strict C04.Tokens C04.Example04.
+                       C04.Spec_C04 C04.Strict C04.Tokens C04.Example04 C04.Exact.
 Import ListNotations.
 Local Open Scope N_scope.
 
@@ -35,7 +35,8 @@ Lemma c04_retains_refuted_lemma :
 Proof. vm_compute. repeat split; reflexivity. Qed.
 
 Lemma c04_nonvacuous_lemma :
-  wf_ctx ex4_ctx = true /\ tokenize (ser toks_list) = Some toks_list /\
+  wf_ctx ex4_ctx = true /\ exact_hyps ex4_ctx toks_list = true /\ rendered ex4_ctx toks_list = true /\
+  struct_verdict ex4_ctx toks_list = VConf /\ tokenize (ser toks_list) = Some toks_list /\
   conforms ex4_ctx (ser toks_list) = true /\ accepted ex4_ctx (ser toks_list) = true /\
   retained ex4_ctx toks_list = true /\ model_ok ex4_ctx (ser toks_list) = true.
 Proof. vm_compute. repeat split; reflexivity. Qed.
